@@ -41,7 +41,7 @@ func Run(c *core.Ctx) int {
 	// fixed programs: a sweep over (which deferred call of a 4-deep call chain panics, which one
 	// recovers, which of them suspend before/after), the forms in which recover() is or is not
 	// "called directly by a deferred function", and Goexit through nested deferred calls
-	for _, st := range []string{"defer_yield_sweep", "recover_forms", "goexit_nested", "deep_and_partial"} {
+	for _, st := range []string{"defer_yield_sweep", "recover_forms", "goexit_nested", "deep_and_partial", "operand_order"} {
 		src, err := staticFS.ReadFile("static/" + st + ".go.txt")
 		if err != nil {
 			panic(err)
